@@ -12,7 +12,8 @@ Qed.
 
 Lemma reseed_none : forall p q, reseed (fun _ => false) p q = init p.
 Proof.
-  induction p as [n|l|s p IH|p1 IH1 p2 IH2]; intros q; cbn [reseed init]; auto.
+  induction p as [n|l|s p IH|p1 IH1 p2 IH2|id g p1 IH1 p2 IH2|id le p1 IH1 p2 IH2]; intros q; cbn [reseed init]; auto;
+    try (destruct q; reflexivity).
   - destruct q; auto. rewrite IH. reflexivity.
   - destruct q; auto. rewrite IH1, IH2. reflexivity.
 Qed.
